@@ -162,7 +162,7 @@ def run(pid, tier, seed):
     pd = programs.ProgramDir("mtv_c12_")
     seqs = [s for n in range(0, 5 if quick else 6) for s in valid_kind_seqs(n)]
     chk.extra["small_scope"] = {"kind_sequences_up_to": 4 if quick else 5, "count": len(seqs)}
-    for _ in range(30 if quick else 300):
+    for _ in range(30 if quick else 4000):
         n = chk.rng.randrange(5, 9)
         kinds = sorted((chk.rng.choice(["posOnly", "posOrKw", "posOrKw", "kwOnly", "kwOnly"]) for _ in range(n)), key=RANK.get)
         if chk.rng.random() < 0.4:
